@@ -1,0 +1,38 @@
+//go:build verif
+
+// Contracts for govc (contract-based deductive verification, see /verif/DESIGN.md).
+// This file contains comments only; it is compiled only with -tags=verif and adds no code.
+
+package ast
+
+//@ package util
+//@ # RuneStr: the canonical rendering of a code point (a function of the value only)
+//@ specfun RuneStr(r int) string
+//@ specfun LitVal(a seq[byte], o int, n int) int
+//@ func util.RuneToString
+//@   trusted
+//@   ensures [fun] result == RuneStr(r)
+//@   assigns nothing
+//@ func util.LitToRune
+//@   nobody
+//@   # proved in internal/util (C20): the value depends only on the bytes of the literal
+//@   ensures [fun] result == LitVal(raw(lit), off(lit), len(lit))
+//@   assigns nothing
+//@
+//@ package ast
+//@
+//@ # C13: a character literal is stored by value and rendered canonically from the value alone
+//@ func newLexCharLit
+//@   prop C13
+//@   requires [tok] typeis(tok, *token.Token) && as(tok, *token.Token) != nil
+//@   ensures [fresh] result != nil && result >= old(alloc())
+//@   ensures [value] result.Val == LitVal(raw(as(tok, *token.Token).Lit), off(as(tok, *token.Token).Lit), len(as(tok, *token.Token).Lit))
+//@   ensures [canonical] result.s == RuneStr(result.Val)
+//@   assigns nothing
+//@
+//@ # C13: the content of a string literal is what lies strictly between its first and last byte, whatever the quotes
+//@ func NewStringLit
+//@   prop C13
+//@   requires [tok] typeis(tok, *token.Token) && as(tok, *token.Token) != nil && len(as(tok, *token.Token).Lit) >= 2
+//@   ensures [content] result1 == nil && result0 == str(as(tok, *token.Token).Lit[1:len(as(tok, *token.Token).Lit)-1])
+//@   assigns nothing
